@@ -895,3 +895,25 @@ func (ExtTagSpellingsProfile) GetClaims() psatoken.IClaims {
 	}
 	return &ExtTagSpellingsClaims{P2Claims: psatoken.P2Claims{Profile: &ep, SwComponents: &psatoken.SwComponents[*psatoken.SwComponent]{}, CanonicalProfile: ExtTagSpellingsName}}
 }
+
+// ---- three levels over profile 1 (C10): an outer type with codec methods embeds an exported struct WITHOUT codec
+// methods of its own (it only has the ones promoted from the profile-1 claims it embeds) that adds a claim ----
+
+type MidP1Claims struct {
+	psatoken.P1Claims
+	Mid *int64 `cbor:"-75800,keyasint,omitempty" json:"mid,omitempty"`
+}
+
+type OuterP1Claims struct {
+	MidP1Claims
+	Top *string `cbor:"-75801,keyasint,omitempty" json:"top,omitempty"`
+}
+
+func (o OuterP1Claims) MarshalCBOR() ([]byte, error) {
+	return encoding.SerializeStructToCBOR(extEM, &o)
+}
+func (o *OuterP1Claims) UnmarshalCBOR(d []byte) error {
+	return encoding.PopulateStructFromCBOR(extDM, d, o)
+}
+func (o OuterP1Claims) MarshalJSON() ([]byte, error)  { return encoding.SerializeStructToJSON(&o) }
+func (o *OuterP1Claims) UnmarshalJSON(d []byte) error { return encoding.PopulateStructFromJSON(d, o) }
